@@ -66,6 +66,14 @@ Theorem C11_markers_undelegating_unbond : forall cfg st sender id amt st' n, wf_
 Proof. intros. eapply undelegate_and_unbond_marks; try eassumption. apply reachable_linv; assumption. Qed.
 Print Assumptions C11_markers_undelegating_unbond.
 
+(* markers (4): the unstaking marker lasts the unbonding period - whatever happens (any operation, by anybody, including
+   the end-block cleanup and epochs), it is still there, unchanged, as long as the block time is before its end time *)
+Theorem C11_markers_undelegating_lasts : forall cfg st o st' n id y, wf_cfg cfg -> reachable cfg st ->
+  step cfg st o = Ok (st', n) -> s_synths st id = [y] -> y_kind y = Unstaking -> s_now st' < y_end y ->
+  s_synths st' id = [y].
+Proof. intros. eapply unstaking_marker_lasts; try eassumption. apply reachable_linv; assumption. Qed.
+Print Assumptions C11_markers_undelegating_lasts.
+
 (* cannot_unlock_while_delegated: a delegated lock is not unlocking, and BeginUnlocking is refused (by whoever it is
    sent) - the state is left as it was; the same holds for a lock that carries any marker *)
 Theorem C11_cannot_unlock_while_delegated : forall cfg st id k sender, wf_cfg cfg -> reachable cfg st ->
